@@ -368,7 +368,7 @@ def drain(F, R):
                 if ver == 'v3' and fn == 'drop_sink':
                     continue
                 raise AnchorLost('%s::shared::MqttShared::%s' % (ver, fn))
-            calls = {bi for bi, t in b.calls_to(r'%s::shared::MqttShared::clear_queues$' % ver)}
+            calls = must_call_blocks(F, b, r'%s::shared::MqttShared::clear_queues$' % ver)
             ok = bool(calls) and not (set(b.returns()) & b.reachable(0, avoid=calls))
             R.ob('C07.drain', '%s|%s|reaches clear_queues on all paths' % (ver, fn), ok, '%s() can return without clearing the queues' % fn)
         # control service: each Control::Stop(..) arm drops the payload
